@@ -150,7 +150,7 @@ theorem slots_ok (cfg : Cfg) (al : Bool) (bsize : Nat) (bstart la : Option Nat) 
     simp only at hc1 hc2
     by_cases hv : isVoid ty = true
     · -- a void member: no entry, no slot
-      obtain ⟨a, rfl⟩ := isVoid_eq hv
+      obtain ⟨a, rfl⟩ := isVoid_sc hv
       have hp0 : padOf al bstart size ((Ty.sc .void a).alignment cfg) = 0 := by
         unfold padOf
         cases bstart with
